@@ -39,6 +39,32 @@ fn start_cmd(rng: &mut Rng, r: &Rose) -> String {
     format!("real.build\t{how}\t{}\t{seed}", r.canon())
 }
 
+/// in half of the cases the tree object has a past: every cache-filling query ran on it, then it was edited and the caches were
+/// reset as documented — the answers below must be those of the tree as it is now
+fn warm_and_edit(st: &mut RealState, case: &mut Case, rng: &mut Rng, rep: &mut Report) -> bool {
+    if !rng.chance(1, 2) {
+        return true;
+    }
+    case.step(st, "real.warm", Cmp::Ignore);
+    let n_edits = rng.range(0, 2);
+    for _ in 0..n_edits {
+        let op = match rng.below(4) {
+            0 => "ar.rescale\t2".to_string(),
+            1 => format!("ar.prune\t{}", rng.below(st.tree.size().max(1))),
+            _ => crate::c03::random_op(rng, st),
+        };
+        let a = case.step(st, &op, Cmp::Class);
+        if class_of(&a) == "panic" {
+            return false;
+        }
+    }
+    if n_edits > 0 && rng.chance(3, 4) {
+        case.step(st, "real.reset_cache", Cmp::Ignore);
+    }
+    rep.count("tree_objects_with_a_past");
+    true
+}
+
 fn gen_tree(rng: &mut Rng, size: usize, mode: LenMode) -> Rose {
     let mut t = if size <= 6 && rng.chance(2, 3) {
         let v = all_shapes(size);
@@ -51,13 +77,17 @@ fn gen_tree(rng: &mut Rng, size: usize, mode: LenMode) -> Rose {
 }
 
 // ------------------------------------------------------------------------------------------------
-fn c10_tree(start: &str, rep: &mut Report, batch: &mut Batch) {
+fn c10_tree(start: &str, rep: &mut Report, batch: &mut Batch, rng: &mut Rng) {
     let mut st = RealState::new();
     let mut case = Case::new();
     if case.step(&mut st, start, Cmp::Ignore) != "ok" {
         rep.count("start_rejected");
         return;
     }
+    if !warm_and_edit(&mut st, &mut case, rng, rep) {
+        return;
+    }
+    let start = &case.script();
     let slots = slots_of(&st.tree);
     let n = slots.len();
     let tomb = slots.iter().filter(|s| s.deleted).count();
@@ -182,6 +212,10 @@ fn c09_tree(start: &str, rep: &mut Report, batch: &mut Batch, max_pairs: usize, 
         rep.count("start_rejected");
         return;
     }
+    if !warm_and_edit(&mut st, &mut case, rng, rep) {
+        return;
+    }
+    let start = &case.script();
     let slots = slots_of(&st.tree);
     let n = slots.len();
     let have = slots.iter().filter(|s| !s.deleted && s.parent.is_some() && s.parent_edge.is_some()).count();
@@ -274,6 +308,9 @@ fn c12_tree(start: &str, rose: Option<&Rose>, rep: &mut Report, batch: &mut Batc
     }
     if edits > 0 {
         rep.count("edited_trees");
+    }
+    if !warm_and_edit(&mut st, &mut case, rng, rep) {
+        return;
     }
     let ctx = case.script();
     c12_queries(&mut st, &mut case, &ctx, rose, rep);
@@ -569,7 +606,7 @@ pub fn run(prop: &str, thorough: bool, seed: u64, driver: &str, rep: &mut Report
                 let start = start_cmd(&mut rng, t);
                 match prop {
                     "C09" => c09_tree(&start, rep, &mut batch, if thorough { 2500 } else { 400 }, &mut rng),
-                    "C10" => c10_tree(&start, rep, &mut batch),
+                    "C10" => c10_tree(&start, rep, &mut batch, &mut rng),
                     _ => {
                         let edits = if rng.chance(1, 3) { rng.range(1, 6) } else { 0 };
                         c12_tree(&start, Some(t), rep, &mut batch, edits, &mut rng)
